@@ -182,6 +182,10 @@ def gen_scenario(seed: int, algos: Sequence[str], envs: Optional[Sequence[str]] 
     if envs:
         choices = [c for c in choices if c in envs] or choices
     sc["env"] = str(rng.choice(choices))
+    if algo == "NaiveElimination" and features.get("naive_lattice") and rng.random() < 0.5:
+        sc["env"] = "lattice"
+        sc["mu"] = (np.round(np.array(sc["mu"]) * 4) / 4).tolist()
+        sc["L"] = int(rng.choice([1, 2, 4, 8, 16]))
     sc["byz"] = False if valid_only else bool(rng.random() < 0.25 and sc["env"] in ("post_adv", "noise_adv"))
     if sc["env"] == "real_sim":
         base = math.sqrt(sc["noise_var"])
